@@ -118,6 +118,10 @@ pub struct Case {
     /// D +- N unit: write the sign glued to the count (`10 june 2020 -3 weeks`); only for dates written with their year
     #[serde(default)]
     pub glue: bool,
+    /// also evaluate the line with its duration (D +- N unit ...) or its first date (A to B) held in a variable bound
+    /// on an earlier line: exactly the same result
+    #[serde(default)]
+    pub via_var: bool,
 }
 
 /// default zones under which dates are read and computed (calendar dates do not depend on the zone)
@@ -376,6 +380,59 @@ impl Prop for Dates {
             return Verdict::skip("date changed during the case", rendered);
         }
         let mut acc = Acc::new();
+        // metamorphic: the duration / the first date held in a variable gives exactly the same result as the literal line
+        let mut via_checked = false;
+        if c.via_var {
+            let whole = case_line(c);
+            let text2: Option<String> = match &c.shape {
+                Shape::Arith(d, plus, n, u, sp, extra) if !c.glue => {
+                    let mut def = Line::default();
+                    def.push(Tok::word("b", Class::Var));
+                    def.push(Tok::op('='));
+                    def.push(Tok::num(NumLit { v: *n as f64, sign: 0, group: false }));
+                    def.push(Tok::word(unit_word(&c.lang, *u, *sp), Class::DurWord));
+                    let mut l = Line::default();
+                    for t in d.toks(&c.lang) {
+                        l.push(t);
+                    }
+                    l.push(Tok::op(if *plus { '+' } else { '-' }));
+                    l.push(Tok::word("b", Class::Var));
+                    if let Some(e) = extra {
+                        l.push(Tok::num(NumLit { v: *e as f64, sign: 0, group: false }));
+                        l.push(Tok::word(unit_word(&c.lang, Unit::Days, *sp), Class::DurWord));
+                    }
+                    Some(format!("{}\n{}", def.render(dec, thou), l.render(dec, thou)))
+                }
+                Shape::Diff(a, _) => {
+                    let n_a = a.toks(&c.lang).len();
+                    let mut def = Line::default();
+                    def.push(Tok::word("a", Class::Var));
+                    def.push(Tok::op('='));
+                    for t in a.toks(&c.lang) {
+                        def.push(t);
+                    }
+                    let mut l = Line::default();
+                    l.push(Tok::word("a", Class::Var));
+                    for t in whole.toks.iter().skip(n_a) {
+                        l.push(t.clone());
+                    }
+                    Some(format!("{}\n{}", def.render(dec, thou), l.render(dec, thou)))
+                }
+                _ => None,
+            };
+            if let Some(t2) = text2 {
+                match w.eval(&cfg, &c.lang, &t2) {
+                    Ok(o) if o.slots.len() == 2 => {
+                        via_checked = true;
+                        if !o.slots[1].same(&slot) {
+                            acc.fail(format!("{:?} gives {} but with the operand held in a variable ({:?}) it gives {}", line, slot.brief(), t2, o.slots[1].brief()));
+                        }
+                    }
+                    Ok(o) => acc.fail(format!("{} slots for two lines", o.slots.len())),
+                    Err(p) => acc.fail(format!("panic at {}: {}", p.site, p.message)),
+                }
+            }
+        }
         let mut crossing: Vec<&'static str> = vec![];
         match (&exp, &slot) {
             (Expect::Undefined(r), _) => return Verdict::skip(r, rendered),
@@ -454,7 +511,7 @@ impl Prop for Dates {
             Shape::Const(_, Some(_)) | Shape::ConstDiff(..) => true,
             _ => false,
         };
-        let mut v = acc.finish(rendered).nt(nt || lit_nt).class(kind).class_if(c.lang == "tr", "lang:tr");
+        let mut v = acc.finish(rendered).nt(nt || lit_nt).class(kind).class_if(via_checked, "operand-also-via-a-variable").class_if(c.lang == "tr", "lang:tr");
         for cl in crossing {
             v = v.class(cl);
         }
@@ -587,19 +644,20 @@ pub fn shape_strategy(lang: &'static str) -> impl Strategy<Value = Shape> {
 }
 
 pub fn case_strategy() -> impl Strategy<Value = Case> {
-    (case_strategy_default_separators(), prop_oneof![3 => Just(0u8), 1 => 1u8..4], prop::bool::weighted(0.25)).prop_map(|(mut c, seps, glue)| {
+    (case_strategy_default_separators(), prop_oneof![3 => Just(0u8), 1 => 1u8..4], prop::bool::weighted(0.25), prop::bool::weighted(0.25)).prop_map(|(mut c, seps, glue, via_var)| {
         c.seps = seps;
         c.glue = glue;
+        c.via_var = via_var;
         c
     })
 }
 
 fn case_strategy_default_separators() -> impl Strategy<Value = Case> {
     prop_oneof![
-        4 => shape_strategy("en").prop_map(|shape| Case { lang: "en".into(), shape, tz: None, seps: 0, glue: false }),
-        2 => shape_strategy("tr").prop_map(|shape| Case { lang: "tr".into(), shape, tz: None, seps: 0, glue: false }),
-        2 => (shape_strategy("en"), prop::sample::select(ZONES.to_vec())).prop_map(|(shape, z)| Case { lang: "en".into(), shape, tz: Some(z.to_string()), seps: 0, glue: false }),
-        1 => (shape_strategy("tr"), prop::sample::select(ZONES.to_vec())).prop_map(|(shape, z)| Case { lang: "tr".into(), shape, tz: Some(z.to_string()), seps: 0, glue: false }),
+        4 => shape_strategy("en").prop_map(|shape| Case { lang: "en".into(), shape, tz: None, seps: 0, glue: false, via_var: false }),
+        2 => shape_strategy("tr").prop_map(|shape| Case { lang: "tr".into(), shape, tz: None, seps: 0, glue: false, via_var: false }),
+        2 => (shape_strategy("en"), prop::sample::select(ZONES.to_vec())).prop_map(|(shape, z)| Case { lang: "en".into(), shape, tz: Some(z.to_string()), seps: 0, glue: false, via_var: false }),
+        1 => (shape_strategy("tr"), prop::sample::select(ZONES.to_vec())).prop_map(|(shape, z)| Case { lang: "tr".into(), shape, tz: Some(z.to_string()), seps: 0, glue: false, via_var: false }),
     ]
 }
 
@@ -611,13 +669,13 @@ pub fn month_grid() -> Vec<Case> {
             for n in 0..=36u32 {
                 for plus in [true, false] {
                     for d in [1u32, 15, 28] {
-                        out.push(Case { lang: "en".into(), shape: Shape::Arith(DateLit { y: Some(y), m, d, spell: Spell::DMonY(0, 0, 0) }, plus, n, Unit::Months, 1, None), tz: None, seps: 0, glue: false });
+                        out.push(Case { lang: "en".into(), shape: Shape::Arith(DateLit { y: Some(y), m, d, spell: Spell::DMonY(0, 0, 0) }, plus, n, Unit::Months, 1, None), tz: None, seps: 0, glue: false, via_var: false });
                     }
                 }
             }
             for n in 0..=5u32 {
                 for plus in [true, false] {
-                    out.push(Case { lang: "en".into(), shape: Shape::Arith(DateLit { y: Some(y), m, d: 15, spell: Spell::Slash(false, false) }, plus, n, Unit::Years, 1, None), tz: None, seps: 0, glue: false });
+                    out.push(Case { lang: "en".into(), shape: Shape::Arith(DateLit { y: Some(y), m, d: 15, spell: Spell::Slash(false, false) }, plus, n, Unit::Years, 1, None), tz: None, seps: 0, glue: false, via_var: false });
                 }
             }
         }
@@ -629,10 +687,10 @@ pub fn month_grid() -> Vec<Case> {
             for (i, _) in names.iter().enumerate() {
                 let pick = ((i as u64 * (1u64 << 32)) / names.len() as u64 + 1) as u32;
                 for cp in 0..4u8 {
-                    out.push(Case { lang: lang.into(), shape: Shape::Literal(DateLit { y: Some(2020), m, d: 12, spell: Spell::DMonY(pick, cp, 0) }), tz: None, seps: 0, glue: false });
-                    out.push(Case { lang: lang.into(), shape: Shape::Literal(DateLit { y: None, m, d: 12, spell: Spell::DMon(pick, cp, 0) }), tz: None, seps: 0, glue: false });
+                    out.push(Case { lang: lang.into(), shape: Shape::Literal(DateLit { y: Some(2020), m, d: 12, spell: Spell::DMonY(pick, cp, 0) }), tz: None, seps: 0, glue: false, via_var: false });
+                    out.push(Case { lang: lang.into(), shape: Shape::Literal(DateLit { y: None, m, d: 12, spell: Spell::DMon(pick, cp, 0) }), tz: None, seps: 0, glue: false, via_var: false });
                     if lang == "en" {
-                        out.push(Case { lang: lang.into(), shape: Shape::Literal(DateLit { y: Some(1999), m, d: 31.min(days_in_month(1999, m as i64) as u32), spell: Spell::MonDY(pick, cp, 0, cp % 2 == 0) }), tz: None, seps: 0, glue: false });
+                        out.push(Case { lang: lang.into(), shape: Shape::Literal(DateLit { y: Some(1999), m, d: 31.min(days_in_month(1999, m as i64) as u32), spell: Spell::MonDY(pick, cp, 0, cp % 2 == 0) }), tz: None, seps: 0, glue: false, via_var: false });
                     }
                 }
             }
